@@ -58,6 +58,28 @@ Check (impl_ok_is_spec : forall H fuel d bytes issued,
   Forall wf_quad d ->
   normalize_with H (mkVar true true) fuel None None d = Ok (bytes, issued) ->
   spec_model H heap_perms label_order false d fuel = SpOk (bytes, issued)).
+(* step 5.2.1 of section 4.4 is unobservable (for every enumeration of permutations that visits
+   at least one permutation and only genuine rearrangements), hence the full statement: *)
+Check (step_5_2_1_unobservable : forall H perms node_order d fuel r,
+  (forall l p, In p (perms l) -> forall x, In x p -> In x l) ->
+  (forall l p, In p (perms l) -> forall x, In x l -> In x p) ->
+  (forall l, perms l = [] -> l = []) ->
+  spec_model H perms node_order false d fuel = SpOk r ->
+  spec_model H perms node_order true d fuel = SpOk r).
+Check (unobservable_needs_nonempty_perms :
+  ~ (forall H perms node_order d fuel r,
+       (forall l p, In p (perms l) -> forall x, In x p -> In x l) ->
+       spec_model H perms node_order false d fuel = SpOk r ->
+       spec_model H perms node_order true d fuel = SpOk r)).
+Check (impl_ok_is_rdfc10 : forall H fuel d bytes issued,
+  Forall wf_quad d ->
+  normalize_with H (mkVar true true) fuel None None d = Ok (bytes, issued) ->
+  spec_model H heap_perms label_order true d fuel = SpOk (bytes, issued)).
+(* THE conformance theorem: any hash function, any limits, any well-formed dataset *)
+Check (conformance : forall H fuel df pl d bytes issued,
+  Forall wf_quad d ->
+  normalize_with H (mkVar true true) fuel df pl d = Ok (bytes, issued) ->
+  spec_model H heap_perms label_order true d fuel = SpOk (bytes, issued)).
 (* ingredients worth reading on their own: first-degree hashes, the repaired smaller_path *)
 Check (first_degree_agrees : forall H d b,
   forallb sp_supported d = true -> In b (bnodes d) ->
@@ -89,6 +111,10 @@ Print Assumptions later_errors.
 Print Assumptions b2h_memo.
 Print Assumptions impl_equals_spec_without_5_2_1.
 Print Assumptions impl_ok_is_spec.
+Print Assumptions step_5_2_1_unobservable.
+Print Assumptions unobservable_needs_nonempty_perms.
+Print Assumptions impl_ok_is_rdfc10.
+Print Assumptions conformance.
 Print Assumptions first_degree_agrees.
 Print Assumptions skip_eq.
 Print Assumptions b2q_prefix_refuted.
